@@ -619,9 +619,311 @@ static void run_c(uint64_t idx)
     VRT_COUNT_N("C.calls", nops);
 }
 
+/* ---------------- A6: keys that are adversarial for multiplicative hashing at ANY precision ---------------- */
+/* Whatever arithmetic computes frac(k * phi) * m, the result can reach m only for keys whose product with the golden
+ * ratio has a fractional part within one unit of that arithmetic's precision of 1 (or of 0).  Random keys never hit a
+ * 2^-54 window, so such keys are constructed: (i) Fibonacci / Lucas numbers (best rational approximations of phi),
+ * their multiples and neighbours; (ii) for every common fixed-point golden multiplier A of b bits the keys
+ * +-j * A^-1 mod 2^b (products j and 2^b - j); (iii) for the golden ratio at every floating precision (and the
+ * 12-digit literal a library may use instead) the record keys of the continued-fraction walk, their sums and their
+ * multiples scaled to every magnitude 2^20 .. 2^63.  Every key x every table size of the sweeps above, mul and div;
+ * a sample of them goes through real tables. */
+typedef unsigned __int128 u128;
+static size_t am[600];
+static int nam;
+static uint64_t G64, fibs[96], lucs[96];
+static u128 G128;                   /* ~ 2^128 * (phi - 1) */
+static int nfib, nluc;
+static struct { uint64_t a; int b; } gm[160];
+static int ngm;
+#define NCF 7
+static const char *const cfname[NCF] = { "phi to 128 bits", "phi as long double", "phi as double", "phi as float",
+    "literal 1.61803398875 as long double", "as double", "as float" };
+static u128 cfg[NCF];
+#define NTAB_SZ 9
+static const size_t tab_sz[NTAB_SZ] = { 1, 2, 3, 7, 64, 1000, 65537, ((size_t)1 << 17) - 1, (size_t)1 << 20 };
+static uint64_t a6_cases;
+
+static void add_mult(uint64_t a, int b)
+{
+    int i;
+    if (b < 64) a &= ((uint64_t)1 << b) - 1;
+    if (a == 0) return;
+    while (!(a & 1)) { a >>= 1; b--; }
+    for (i = 0; i < ngm; i++) if (gm[i].a == a && gm[i].b == b) return;
+    if (ngm < (int)(sizeof(gm) / sizeof(gm[0]))) { gm[ngm].a = a; gm[ngm].b = b; ngm++; }
+}
+static void add_mult2(uint64_t a, int b)     /* as a b-bit multiplier, and with the product taken mod 2^64 (without / with integer bit) */
+{
+    add_mult(a, b); add_mult(a, 64);
+    if (b < 64) add_mult(a | ((uint64_t)1 << b), 64);
+}
+static u128 frac_of(long double c) { return (u128)(uint64_t)((c - 1.0L) * 0x1p63L) << 65; }
+static void build_adv(void)
+{
+    static const size_t extra[] = { 7, 1000, 1000003, 0xfffffffffffull, ((size_t)1 << 53) + 1, ((size_t)1 << 53) - 1, SIZE_MAX / 2 };
+    static const int bits[] = { 16, 24, 32, 48, 52, 53, 56, 63, 64 };
+    volatile long double lit_l = 1.61803398875L, phi_l;
+    volatile double lit_d = 1.61803398875, phi_d;
+    volatile float lit_f = 1.61803398875f, phi_f;
+    u128 r1;
+    int i, j;
+    nam = 0;
+    for (i = 0; i < nbm; i++) am[nam++] = bm[i];
+    for (i = 0; i < (int)(sizeof(extra) / sizeof(extra[0])); i++) {
+        for (j = 0; j < nam && am[j] != extra[i]; j++) ;
+        if (j == nam) am[nam++] = extra[i];
+    }
+    fibs[0] = 0; fibs[1] = 1; nfib = 2;
+    while (fibs[nfib - 1] <= UINT64_MAX - fibs[nfib - 2]) { fibs[nfib] = fibs[nfib - 1] + fibs[nfib - 2]; nfib++; }
+    lucs[0] = 2; lucs[1] = 1; nluc = 2;
+    while (lucs[nluc - 1] <= UINT64_MAX - lucs[nluc - 2]) { lucs[nluc] = lucs[nluc - 1] + lucs[nluc - 2]; nluc++; }
+    /* phi - 1 = lim F(n-1)/F(n); the last pair below 2^64 is good to ~2^-129 */
+    G128 = ((u128)fibs[nfib - 2] << 64) / fibs[nfib - 1];
+    r1 = ((u128)fibs[nfib - 2] << 64) % fibs[nfib - 1];
+    G64 = (uint64_t)G128;
+    G128 = (G128 << 64) | (uint64_t)((r1 << 64) / fibs[nfib - 1]);
+    phi_l = 1.0L + (long double)G64 * 0x1p-64L; phi_d = (double)phi_l; phi_f = (float)phi_l;
+    ngm = 0;
+    for (i = -2; i <= 2; i++) add_mult2(0x9E3779B97F4A7C15ull + (uint64_t)i, 64);
+    add_mult2(0x9E3779B1u, 32); add_mult2(0x9E3779B9u, 32); add_mult2(2654435761u, 32); add_mult2(2654435769u, 32);
+    add_mult2(40503, 16);
+    for (i = 0; i < (int)(sizeof(bits) / sizeof(bits[0])); i++) {
+        const uint64_t fl = bits[i] == 64 ? G64 : G64 >> (64 - bits[i]);
+        add_mult2(fl, bits[i]); add_mult2(fl + 1, bits[i]);
+    }
+    add_mult2((uint64_t)((lit_f - 1.0f) * 0x1p23f), 23); add_mult2((uint64_t)((phi_f - 1.0f) * 0x1p23f), 23);
+    add_mult2((uint64_t)((lit_d - 1.0) * 0x1p52), 52);    add_mult2((uint64_t)((phi_d - 1.0) * 0x1p52), 52);
+    add_mult2((uint64_t)((lit_l - 1.0L) * 0x1p63L), 63);  add_mult2((uint64_t)((phi_l - 1.0L) * 0x1p63L), 63);
+    cfg[0] = G128; cfg[1] = frac_of(phi_l); cfg[2] = frac_of(phi_d); cfg[3] = frac_of(phi_f);
+    cfg[4] = frac_of(lit_l); cfg[5] = frac_of(lit_d); cfg[6] = frac_of(lit_f);
+    a6_cases = 2 + (uint64_t)ngm + NCF + 3 * NTAB_SZ;
+}
+
+/* what happens to a generated key: evaluated against every table size, or sampled for the table cases */
+#define ADV_NSAMP 8192
+static int adv_collect, adv_pri, adv_nsamp;
+static size_t *adv_samp;
+static uint64_t adv_evals, adv_t[6];    /* keys; exact fraction of k*c: zero, within 2^-52 / 2^-60 of 1, within 2^-52 / 2^-60 of 0 */
+static void adv_key(size_t k)
+{
+    int j;
+    adv_t[0]++;
+    if (adv_collect) {
+        if (adv_pri ? adv_nsamp < ADV_NSAMP * 3 / 4 : (adv_nsamp < ADV_NSAMP && vrt_mix(vrt_seed, k) % 509 == 0)) adv_samp[adv_nsamp++] = k;
+        return;
+    }
+    for (j = 0; j < nam; j++) { check_mul(k, am[j]); check_div(k, am[j]); }
+    adv_evals += nam;
+}
+static void adv_class(size_t k, u128 g)
+{
+    const u128 fr = (u128)k * g, d1 = (u128)0 - fr;
+    if (fr == 0) { adv_t[1]++; return; }
+    if (d1 <= (u128)1 << 76) adv_t[2]++;
+    if (d1 <= (u128)1 << 68) adv_t[3]++;
+    if (fr <= (u128)1 << 76) adv_t[4]++;
+    if (fr <= (u128)1 << 68) adv_t[5]++;
+}
+static void gen_fib(const uint64_t *f, int n)
+{
+    int i, d;
+    uint64_t c;
+    for (i = 0; i < n; i++) for (c = 1; c <= 64; c++) {
+        if (f[i] != 0 && c > UINT64_MAX / f[i]) break;
+        for (d = -2; d <= 2; d++) {
+            const size_t k = (size_t)(c * f[i]) + (size_t)d;
+            adv_pri = c == 1 && d == 0;
+            adv_class(k, G128);
+            adv_key(k);
+        }
+        if (f[i] == 0) break;
+    }
+}
+static void gen_mult(int mi)
+{
+    const uint64_t a = gm[mi].a, mask = gm[mi].b == 64 ? ~(uint64_t)0 : ((uint64_t)1 << gm[mi].b) - 1;
+    uint64_t inv = a, j;
+    int s, v;
+    for (s = 0; s < 6; s++) inv *= 2 - a * inv;
+    if (a * inv != 1) vrt_fail("harness.hashrange.modular-inverse", "no inverse for multiplier %llx", (unsigned long long)a);
+    for (j = 0; j <= 4096; j++) for (s = 0; s < 2; s++) {
+        const uint64_t want = (s ? (uint64_t)0 - j : j) & mask, k0 = (want * inv) & mask;
+        if (((k0 * a) & mask) != want) vrt_fail("harness.hashrange.modular-inverse", "product for multiplier %llx is not the wanted one", (unsigned long long)a);
+        adv_pri = j <= 2;
+        adv_key((size_t)k0);
+        if (s && j >= 1 && j <= 2) adv_t[2]++;
+        /* keys wider than the multiplier: everything above bit b set, or arbitrary */
+        for (v = 0; v < 2 && mask != ~(uint64_t)0 && j <= 1024; v++)
+            adv_key((size_t)(k0 | (v ? vrt_mix(0xA6, k0) << gm[mi].b : ~mask)));
+    }
+}
+/* the keys at which frac(k*c) comes closer to 0 or to 1 than for every smaller key (c = 1 + g / 2^128), in increasing order;
+ * of a long run of intermediate ones the first two and the last two */
+static int cf_records(u128 g, uint64_t *rec, int max)
+{
+    u128 du = g, dv = (u128)0 - g, ku = 1, kv = 1;
+    int n = 0;
+    rec[n++] = 1;
+    while (du != 0 && dv != 0 && n + 4 <= max) {
+        const int up = du < dv;             /* the key nearest 1 moves closer by adding the key nearest 0, or the other way round */
+        u128 *const kk = up ? &kv : &ku, *const dk = up ? &dv : &du;
+        const u128 ko = up ? ku : kv, dd = up ? du : dv, t = *dk / dd;
+        u128 i;
+        for (i = 1; i <= t; i++) {
+            if (i > 2 && i + 1 < t) i = t - 1;
+            if (i > UINT64_MAX / ko || *kk + i * ko > UINT64_MAX) return n;
+            rec[n++] = (uint64_t)(*kk + i * ko);
+        }
+        *kk += t * ko; *dk -= t * dd;
+    }
+    return n;
+}
+static void cf_key(size_t k, u128 g, int pri) { adv_pri = pri; adv_class(k, g); adv_key(k); }
+static void gen_cf(int ci)
+{
+    static uint64_t rec[1024];
+    const u128 g = cfg[ci];
+    const int n = cf_records(g, rec, 1024);
+    int i, j, l, e;
+    uint64_t t;
+    for (i = 0; i < n; i++) {
+        const uint64_t q = rec[i];
+        cf_key(q, g, 1);
+        cf_key(q - 1, g, 0); cf_key(q + 1, g, 0); cf_key(q - 2, g, 0); cf_key(q + 2, g, 0);
+        for (t = 2; t <= 8 && q <= UINT64_MAX / t; t++) cf_key(t * q, g, 0);
+        for (j = i > 9 ? i - 9 : 0; j <= i; j++) {       /* sums of two and three neighbouring record keys */
+            if (q > UINT64_MAX - rec[j]) continue;
+            cf_key(q + rec[j], g, 0);
+            for (l = j; l <= i; l++) if (q + rec[j] <= UINT64_MAX - rec[l]) cf_key(q + rec[j] + rec[l], g, 0);
+        }
+    }
+    for (e = 20; e <= 63; e++) {                         /* record keys scaled into the magnitude 2^e */
+        const uint64_t lim = (uint64_t)1 << e;
+        for (i = n - 1; i > 0 && rec[i] > lim; i--) ;
+        for (j = i; j >= 0 && j > i - 6; j--) {
+            const uint64_t t0 = (lim + rec[j] - 1) / rec[j];
+            cf_key(t0 * rec[j], g, 0);
+            if (t0 + 1 <= UINT64_MAX / rec[j]) cf_key((t0 + 1) * rec[j], g, 0);
+        }
+    }
+}
+static void adv_begin(int collect)
+{
+    memset(adv_t, 0, sizeof(adv_t)); adv_evals = 0; adv_collect = collect; adv_pri = 0; adv_nsamp = 0;
+    if (G64 != 0x9E3779B97F4A7C15ull || nfib != 94)
+        vrt_fail("harness.hashrange.golden-constant", "2^64 * (phi - 1) came out as %llx from %d Fibonacci numbers", (unsigned long long)G64, nfib);
+}
+static void adv_end(void)
+{
+    VRT_COUNT_N("A.mul.evaluations", adv_evals);
+    VRT_COUNT_N("A.div.evaluations", adv_evals);
+    VRT_COUNT_N("A.mul.adversarial-keys-x-every-table-size", adv_t[0]);
+}
+static void run_a6_table(uint64_t c);
+static void run_a6(uint64_t c)
+{
+    vrt_sig(0, vrt_mix(vrt_mix(0xA6, 0xadce55a1), c));      /* (small tags with small slice numbers collide in vrt_mix) */
+    if (c < 2) {
+        vrt_case_note("A6 mul/div: %s numbers below 2^64, multiples c <= 64, neighbours +-1 +-2 x %d table sizes", c ? "Lucas" : "Fibonacci", nam);
+        VRT_OP2("hash.mul", "Fibonacci (0) / Lucas (1) keys: %ld x %ld table sizes", c, nam);
+        adv_begin(0);
+        gen_fib(c ? lucs : fibs, c ? nluc : nfib);
+        adv_end();
+        VRT_COUNT_N("A.mul.fib.keys", adv_t[0]);
+        VRT_COUNT_N("A.mul.fib.frac-within-2^-52-of-1", adv_t[2]); VRT_COUNT_N("A.mul.fib.frac-within-2^-60-of-1", adv_t[3]);
+        VRT_COUNT_N("A.mul.fib.frac-within-2^-52-of-0", adv_t[4]); VRT_COUNT_N("A.mul.fib.frac-within-2^-60-of-0", adv_t[5]);
+        return;
+    }
+    c -= 2;
+    if (c < (uint64_t)ngm) {
+        vrt_case_note("A6 mul/div: keys +-j / A mod 2^%d, j <= 4096, for the fixed-point golden multiplier A = 0x%llx (also with high bits) x %d table sizes",
+                      gm[c].b, (unsigned long long)gm[c].a, nam);
+        VRT_OP2("hash.mul", "keys whose product with multiplier %lx mod 2^%ld is within 4096 of 0 / of 2^b", gm[c].a, gm[c].b);
+        adv_begin(0);
+        gen_mult((int)c);
+        adv_end();
+        VRT_COUNT_N("A.mul.fixedpoint.keys", adv_t[0]);
+        VRT_COUNT_N("A.mul.fixedpoint.keys-with-product-within-2-of-2^b", adv_t[2]);
+        VRT_COUNT("A.mul.fixedpoint.multipliers");
+        if (gm[c].b == 64) VRT_COUNT("A.mul.fixedpoint.multipliers.mod-2^64"); else VRT_COUNT("A.mul.fixedpoint.multipliers.narrower");
+        return;
+    }
+    c -= ngm;
+    if (c < NCF) {
+        vrt_case_note("A6 mul/div: continued-fraction record keys of %s, sums, multiples scaled to 2^20..2^63 x %d table sizes", cfname[c], nam);
+        VRT_OP2("hash.mul", "continued-fraction keys of constant %ld x %ld table sizes", c, nam);
+        adv_begin(0);
+        gen_cf((int)c);
+        adv_end();
+        VRT_COUNT_N("A.mul.cf.keys", adv_t[0]);
+        VRT_COUNT_N("A.mul.cf.frac-exactly-0", adv_t[1]);
+        VRT_COUNT_N("A.mul.cf.frac-within-2^-52-of-1", adv_t[2]); VRT_COUNT_N("A.mul.cf.frac-within-2^-60-of-1", adv_t[3]);
+        VRT_COUNT_N("A.mul.cf.frac-within-2^-52-of-0", adv_t[4]); VRT_COUNT_N("A.mul.cf.frac-within-2^-60-of-0", adv_t[5]);
+        return;
+    }
+    run_a6_table(c - NCF);
+}
+/* a sample of all of them (the most pointed ones always) lives in a real table using the built-in functions */
+static void run_a6_table(uint64_t c)
+{
+    const size_t n = tab_sz[c % NTAB_SZ];
+    const int fn = (int)(c / NTAB_SZ);          /* 0 mul, 1 NULL (= mul), 2 div */
+    struct elem **p;
+    int i, cnt, vis = 0;
+    adv_samp = vrt_alloc(ADV_NSAMP * sizeof(*adv_samp));
+    adv_begin(1);
+    gen_fib(fibs, nfib); gen_fib(lucs, nluc);
+    for (i = 0; i < ngm; i++) gen_mult(i);
+    for (i = 0; i < NCF; i++) gen_cf(i);
+    cnt = n < 64 ? (adv_nsamp < 768 ? adv_nsamp : 768) : adv_nsamp;
+    vrt_case_note("A6 table: %d adversarial keys in a table of %zu buckets using %s", cnt, n, fn == 0 ? "cstl_hash_mul" : fn == 1 ? "NULL (cstl_hash_mul)" : "cstl_hash_div");
+    p = vrt_alloc((size_t)cnt * sizeof(*p));
+    for (i = 0; i < cnt; i++) {
+        const int s = n < 64 ? (int)((uint64_t)i * adv_nsamp / cnt) : i;
+        p[i] = vrt_alloc(sizeof(*p[i])); memset(p[i], 0x5e, sizeof(*p[i])); p[i]->magic = 0xe1e1; p[i]->id = i;
+        p[i]->node.key = adv_samp[s]; p[i]->node.next = NULL;
+    }
+    vrt_state("builtin.adversarial-keys");
+    cstl_hash_init(&T, offsetof(struct elem, node));
+    VRT_OP2("hash.resize", "n=%ld f=%ld (0 mul, 1 NULL, 2 div)", n, fn);
+    cstl_hash_resize(&T, n, fn == 0 ? cstl_hash_mul : fn == 1 ? NULL : cstl_hash_div);
+    for (i = 0; i < cnt; i++) {
+        const size_t k = p[i]->node.key;
+        VRT_OP1("hash.insert", "key=%ld", k);
+        cstl_hash_insert(&T, k, p[i]);
+    }
+    VRT_OP1("hash.resize", "n=%ld f=NULL (rehash pending from here on)", n + 2);
+    cstl_hash_resize(&T, n + 2, NULL);
+    for (i = 0; i < cnt; i++) {
+        const size_t k = p[i]->node.key;
+        const struct elem *f;
+        VRT_OP1("hash.find", "key=%ld", k);
+        f = cstl_hash_find(&T, k, NULL, NULL);
+        if (f == NULL || f->node.key != k) vrt_fail("hash.builtin.lost-element", "element with key %zu not found", k);
+    }
+    VRT_OP0("hash.foreach", ""); cstl_hash_foreach(&T, d_visit, &vis);
+    if (vis != cnt) vrt_fail("hash.builtin.lost-element", "foreach visited %d of %d elements", vis, cnt);
+    for (i = 0; i < cnt; i += 2) {
+        VRT_OP1("hash.erase", "key=%ld", p[i]->node.key);
+        cstl_hash_erase(&T, p[i]);
+    }
+    VRT_OP0("hash.rehash", ""); cstl_hash_rehash(&T);
+    for (i = 1; i < cnt; i += 2) {
+        VRT_OP1("hash.find", "key=%ld", p[i]->node.key);
+        if (cstl_hash_find(&T, p[i]->node.key, NULL, NULL) == NULL) vrt_fail("hash.builtin.lost-element", "element with key %zu not found", (size_t)p[i]->node.key);
+    }
+    cstl_hash_clear(&T, NULL);
+    for (i = 0; i < cnt; i++) vrt_free(p[i]);
+    vrt_free(p); vrt_free(adv_samp); adv_samp = NULL;
+    VRT_COUNT_N("A.table.adversarial-keys-inserted", cnt);
+    VRT_COUNT("A.table.histories-without-abort");
+}
+
 static uint64_t ncases(void)
 {
     build_m_set();
+    build_adv();
     a1_chunks = vrt_thorough ? ((size_t)1 << 25) / CHUNK_K + 1 : ((size_t)1 << 24) / CHUNK_K;
     a2_cases = vrt_thorough ? 256 : 32;
     a3_cases = vrt_thorough ? 1024 : 64;
@@ -631,7 +933,7 @@ static uint64_t ncases(void)
     a4_cases = 256;
     a5_cases = vrt_thorough ? 256 : 32;
     d_cases = ndcells();
-    return a1_chunks + a2_cases + a3_cases + adiv_cases + b_cases + c_cases + a4_cases + a5_cases + d_cases;
+    return a1_chunks + a2_cases + a3_cases + adiv_cases + b_cases + c_cases + a4_cases + a5_cases + d_cases + a6_cases;
 }
 static void run_case(uint64_t idx)
 {
@@ -651,7 +953,9 @@ static void run_case(uint64_t idx)
     idx -= a4_cases;
     if (idx < a5_cases) { run_a5(idx); return; }
     idx -= a5_cases;
-    run_d(idx);
+    if (idx < d_cases) { run_d(idx); return; }
+    idx -= d_cases;
+    run_a6(idx);
 }
 static void winit(void)
 {
@@ -665,6 +969,10 @@ static void wfini(void)
 }
 static const char *const required[] = {
     "A.mul.evaluations", "A.div.evaluations", "A.mul.scale-factor-grid-points", "A.mul.float-grid-keys", "A.mul.all-32-bit-keys", "A.mul.random-64-bit-keys",
+    "A.mul.fib.keys", "A.mul.fib.frac-within-2^-60-of-1", "A.mul.fib.frac-within-2^-60-of-0",
+    "A.mul.fixedpoint.keys", "A.mul.fixedpoint.keys-with-product-within-2-of-2^b", "A.mul.fixedpoint.multipliers.mod-2^64", "A.mul.fixedpoint.multipliers.narrower",
+    "A.mul.cf.keys", "A.mul.cf.frac-within-2^-52-of-1", "A.mul.cf.frac-within-2^-60-of-1", "A.mul.cf.frac-within-2^-60-of-0",
+    "A.table.adversarial-keys-inserted", "A.table.histories-without-abort",
     "B.cells.aborted-as-required", "B.cells.bad-value-on-relocation-path", "C.histories-without-abort",
     "C.rehash", "C.foreach", "C.shrink_to_fit", "C.clear-then-fresh-resize",
     "D.cells.aborted-as-required", "D.cells.completed-without-abort",
